@@ -121,7 +121,7 @@ Hi(l) ==
 \* ---------------------------------------------------------------- arrays
 Heavy(of) == \E k \in 1..Len(of) : of[k] \in {"T", "B"}
 Lens(of) == IF Heavy(of) THEN (IF Tier = "q" THEN {0, 1, 2} ELSE {0, 1, 2, 3})
-            ELSE (IF Tier = "q" THEN {0, 1, 2, 253} ELSE {0, 1, 2, 252, 253, 254, 300})
+            ELSE (IF Tier = "q" THEN {0, 1, 2, 253} ELSE {0, 1, 2, 3, 252, 253, 254, 255, 256, 300, 1000})
 ElemTyp(of, s) == IF Len(of) = 1 THEN Typ(of[1], s) ELSE [k \in 1..Len(of) |-> Typ(of[k], s + k)]
 ElemOf(of, g(_)) == IF Len(of) = 1 THEN g(of[1]) ELSE [k \in 1..Len(of) |-> g(of[k])]
 \* every boundary value of every component, the other components typical
